@@ -99,7 +99,12 @@ pub fn value_bytes(val: u64, size: u32) -> Vec<u8> {
     out.extend_from_slice(&val.to_le_bytes()[..(size as usize).min(8)]);
     let mut i = 0u64;
     while out.len() < size as usize {
-        let x = mix(val, i).to_le_bytes();
+        let mut x = mix(val, i).to_le_bytes();
+        for b in x.iter_mut() {
+            if *b == 0 {
+                *b = 0xA5;
+            }
+        }
         let take = (size as usize - out.len()).min(8);
         out.extend_from_slice(&x[..take]);
         i += 1;
@@ -314,7 +319,19 @@ pub fn apply_to_model(m: &mut Model, op: &Op, val: u64) {
 impl<const N: usize> Driver<N> {
     /// value id the next `step(Put)` will use
     pub fn peek_val(&self) -> u64 {
-        (self.hist_id << 24) ^ (self.next_val << 1) | 1
+        Self::val_for(self.hist_id, self.next_val)
+    }
+
+    /// unique value id without zero bytes (so that the zero-filled hole a failed append leaves can never
+    /// coincide with the bytes that were meant to be written)
+    fn val_for(hist_id: u64, n: u64) -> u64 {
+        let mut b = mix(hist_id ^ 0x7061_6c75_6576, n).to_le_bytes();
+        for x in b.iter_mut() {
+            if *x == 0 {
+                *x = 0x5A;
+            }
+        }
+        u64::from_le_bytes(b)
     }
 
     pub fn new(dir: PathBuf, cfg: Cfg, hist_id: u64) -> Self {
@@ -354,7 +371,7 @@ impl<const N: usize> Driver<N> {
     }
 
     pub fn fresh_val(&mut self) -> u64 {
-        let v = (self.hist_id << 24) ^ (self.next_val << 1) | 1;
+        let v = Self::val_for(self.hist_id, self.next_val);
         self.next_val += 1;
         v
     }
